@@ -32,7 +32,7 @@ structure FEdge where
   dst : Nat
   sport : String
   dport : String
-  deriving Repr, Inhabited
+  deriving Repr, Inhabited, DecidableEq
 
 /-- one resolved handoff reference of operator `node` (`ResolvedHandoffRef`), in node order then
     reference order -/
@@ -198,10 +198,18 @@ def depPairs (g : Flat) : List (Nat × Nat) :=
 def predsOf (pairs : List (Nat × Nat)) (n : Nat) : List Nat :=
   (pairs.filter (fun p => p.1 == n)).map (·.2)
 
+/-- `(borrower, consumer)`: a borrower of a handoff and every pipe consumer of that handoff (the consumer's
+    subgraph drains the handoff before any of its operators runs, so the two must not share a subgraph) -/
+def borrowerConsumerPairs (g : Flat) : List (Nat × Nat) :=
+  g.refs.flatMap fun r =>
+    match r.target with
+    | none => []
+    | some s => if g.isHoff s then (g.consumers s).map (fun c => (r.node, c)) else []
+
 /-- enemy pairs handed to `SubgraphMerge::new` (self-pairs — a delayed self-edge — are skipped) -/
 def enemyPairs (g : Flat) : List (Nat × Nat) :=
-  (g.barrierPairs ++ g.accessPairs ++ g.refs.filterMap (fun r => r.target.map (fun s => (s, r.node)))).filter
-    (fun p => p.1 != p.2)
+  (g.barrierPairs ++ g.accessPairs ++ g.refs.filterMap (fun r => r.target.map (fun s => (s, r.node)))
+    ++ g.borrowerConsumerPairs).filter (fun p => p.1 != p.2)
 
 end Flat
 
@@ -390,6 +398,13 @@ def partitionWith (ts : TopoSortFn) (g : Flat) : Outcome :=
   | .cycle c => .err c
   | .panic msg => .panic msg
   | .ok sm => finishPartition g (mergeLoop g (g.nodes.length + 2) (mergeInit g sm))
+
+/-- executable form of the well-formedness hypotheses of the theorems (`Flat.WF`, `Flat.UniqueEdgeIds`; see
+    `wfB_sound`): edge heads and referencing nodes are nodes of the graph, edge ids are unique.  The driver
+    evaluates it on every dumped graph (`wf`), the harness expects `true`. -/
+def Flat.wfB (g : Flat) : Bool :=
+  g.edges.all (fun e => g.nodeIds.contains e.dst) && g.refs.all (fun r => g.nodeIds.contains r.node) &&
+  g.edges.all (fun e => g.edges.all (fun e' => e.id != e'.id || decide (e = e')))
 
 /-- the partitioner as the driver runs it: `SubgraphMerge::new` sorts with the C17 transcription of
     `topo_sort` (`tsC17`, which meets `TopoSpec` — `Props/C19.lean`); the window re-sort inside `try_merge`
